@@ -252,6 +252,9 @@ package mpt
 //@ opt stable t.refcount
 //@ requires t != nil && t.refcount != nil
 //@ ensures[canon] result2 == nil ==> result0 != nil && canTop(result0)
+// the value that sits at the prefix itself (an empty one included: nil means absent, not empty) is
+// put back as the branch's own leaf before the rest of the batch goes in
+//@ call addToBranch requires[kept] value != nil ==> is(arg1.Children[lastChild], *LeafNode)
 
 //@ func (*Trie).putBatchIntoExtensionNoPrefix
 //@ may-panic
@@ -317,3 +320,32 @@ package mpt
 //@ opt frame off
 //@ requires e != nil && io.validR(r)
 //@ call fmt::Errorf requires[toolong] sz > maxPathLength
+
+// (C10) one admissible key range for every operation: Get, Put, Delete and GetProof refuse a key
+// exactly when it is longer than MaxKeyLength (Put also an empty key, a nil or an over-long value)
+// and otherwise go on to the trie walk - a key that can be stored can be read, deleted and proved.
+//@ prop C10
+//@ func (*Trie).GetProof
+//@ may-panic
+//@ opt frame off
+//@ requires t != nil
+//@ ensures[refused] len(key) > MaxKeyLength ==> result1 != nil && ncalls(getProof) == 0
+//@ ensures[admitted] len(key) <= MaxKeyLength ==> ncalls(getProof) == 1
+//@ func (*Trie).Get
+//@ may-panic
+//@ opt frame off
+//@ requires t != nil
+//@ ensures[refused] len(key) > MaxKeyLength ==> result1 != nil && ncalls(getWithPath) == 0
+//@ ensures[admitted] len(key) <= MaxKeyLength ==> ncalls(getWithPath) == 1
+//@ func (*Trie).Delete
+//@ may-panic
+//@ opt frame off
+//@ requires t != nil
+//@ ensures[refused] len(key) > MaxKeyLength ==> result != nil && ncalls(deleteFromNode) == 0
+//@ ensures[admitted] len(key) <= MaxKeyLength ==> ncalls(deleteFromNode) == 1
+//@ func (*Trie).Put
+//@ may-panic
+//@ opt frame off
+//@ requires t != nil
+//@ ensures[refused] len(key) == 0 || len(key) > MaxKeyLength || len(value) > MaxValueLength || value == nil ==> result != nil && ncalls(putIntoNode) == 0
+//@ ensures[admitted] !(len(key) == 0 || len(key) > MaxKeyLength || len(value) > MaxValueLength || value == nil) ==> ncalls(putIntoNode) == 1
